@@ -1,6 +1,7 @@
 import SamplyModel.Lemmas.ContextSwitch
 import SamplyModel.Lemmas.ConvCs
 import SamplyModel.Lemmas.ConvCsRun
+import SamplyModel.Lemmas.ConvCsViews
 /-!
 # C12 — CPU-time and off-CPU accounting conserve time for every switch/sample history
 
@@ -298,6 +299,62 @@ theorem C12_conv_offcpu (cfg : Config) (rs : List Conv.Rec) (hi : 0 < cfg.interv
   rw [offWeight_esamp b1]
   exact h3 hs
 
+/-! ### After the flush: the thread entries of `views (run cfg rs)`
+
+`C12_conv_cpu` / `C12_conv_offcpu` speak about the sample buffers of `Conv.run`. The flush keeps entry, cpu delta,
+weight and kind of every buffered item (`Conv.flushBuffer_cpu`; time / weight / kind: `C14_flush_keeps_kind`) and
+`views` groups the flushed samples by thread entry, so the same equations hold of the output — stated here for the
+simplest honest quantifier: default options and histories without EXIT / EXEC records (one incarnation per
+(pid, tid); nothing is parked, every item sits in the buffer of the pid it was recorded for), i.e. the histories on
+which `judgeCs` evaluates its per-thread clauses (2) and (3). `viewItems s` lists the samples of the output (marker
+stacks excluded) with the pid / tid their thread entry carries; the sums range over the samples of the thread
+entries carrying (pid, tid). -/
+
+/-- **CPU time on the output** (clause (2) of `judgeCs`): the cpu deltas of the output samples of the thread entries
+carrying (pid, tid), plus what is still pending in the thread's accumulator, equal the running time of the thread's
+bare history. -/
+theorem C12_conv_views_cpu (cfg : Config) (rs : List Conv.Rec) (hr : cfg.reuse = false)
+    (hcut : ConvSpec.CsSpec.hasCut rs = false) (hi : 0 < cfg.interval) (hoc : cfg.offCpu.isSome = true)
+    (pid tid : Nat) (ho : TOrdered cfg (none, H.init) (trecs cfg pid tid rs)) :
+    (((viewItems (Conv.run cfg rs)).filter (fun x => x.1 == pid && x.2.1 == tid)).map (fun x => x.2.2.cpu)).sum
+        + (threadCs (Conv.run cfg rs) pid tid).onAcc
+      = (spec (timed cfg (trecs cfg pid tid rs))).running := by
+  have hw := thread_of_run_nocut cfg rs hcut pid tid
+  have hp := views_thread_perm cfg rs hr hcut pid tid
+  have h := (C12_thread_cpu (Conv.St.init cfg) hi hoc pid tid 0 (trecs cfg pid tid rs) ho).1
+  have e1 : (((viewItems (Conv.run cfg rs)).filter (fun x => x.1 == pid && x.2.1 == tid)).map (fun x => x.2.2.cpu)).sum
+      = cpuSum (threadBuf (Conv.run cfg rs) pid tid) := by
+    have := sum_map_fst_of_perm hp
+    rw [List.map_map, List.map_map] at this
+    exact this
+  have e2 : threadCs (Conv.run cfg rs) pid tid =
+      (threadRun (Conv.St.init cfg) pid tid 0 (trecs cfg pid tid rs)).th.cs := by
+    unfold threadCs; rw [hw.tq]; rfl
+  rw [e1, cpuSum_esamp hw.buf, e2]
+  exact h
+
+/-- **Off-CPU weights on the output** (clause (3) of `judgeCs`): unless a group of more than 2^31 units occurred
+(`sat`), the weights of the synthesized off-CPU samples of the thread entries carrying (pid, tid) add up to
+`units · off_cpu_weight_per_sample`, where `units` counts the units of the groups that were turned into samples
+(those of dropped groups are in `dropped`: `C12_conv_offcpu` accounts `units + dropped` against the sleeping time). -/
+theorem C12_conv_views_offcpu (cfg : Config) (rs : List Conv.Rec) (hr : cfg.reuse = false)
+    (hcut : ConvSpec.CsSpec.hasCut rs = false) (hi : 0 < cfg.interval) (hoc : cfg.offCpu.isSome = true)
+    (pid tid : Nat) (ho : TOrdered cfg (none, H.init) (trecs cfg pid tid rs))
+    (hsat : (threadRun (Conv.St.init cfg) pid tid 0 (trecs cfg pid tid rs)).sat = false) :
+    ((((viewItems (Conv.run cfg rs)).filter (fun x => x.1 == pid && x.2.1 == tid)).filter
+        (fun x => x.2.2.synth)).map (fun x => x.2.2.weight)).sum
+      = (threadRun (Conv.St.init cfg) pid tid 0 (trecs cfg pid tid rs)).units * cfg.offWeight := by
+  have hw := thread_of_run_nocut cfg rs hcut pid tid
+  have hp := views_thread_perm cfg rs hr hcut pid tid
+  have h := (C12_thread_offcpu (Conv.St.init cfg) hi hoc pid tid 0 (trecs cfg pid tid rs) ho).2.2 hsat
+  have hp2 := ((hp.filter (fun x => x.2.2 != Conv.ItemKind.recorded)).map (fun x => x.2.1)).sum_nat
+  rw [List.filter_map, List.map_map, List.filter_map, List.map_map] at hp2
+  have e1 : ((((viewItems (Conv.run cfg rs)).filter (fun x => x.1 == pid && x.2.1 == tid)).filter
+        (fun x => x.2.2.synth)).map (fun x => x.2.2.weight)).sum
+      = offWeight (threadBuf (Conv.run cfg rs) pid tid) := hp2
+  rw [e1, offWeight_esamp hw.buf]
+  exact h
+
 /-! ### Non-vacuity: the history of the repo's own unit test satisfies the hypotheses, and the
 conclusions are the numbers that test asserts. -/
 
@@ -346,3 +403,11 @@ example : curRecs C12_runCfg 1 2 (C12_runHistory ++ [.exit 1 2 20, .switchIn 1 2
 example : (threadBuf (Conv.run C12_runCfg C12_runHistory) 1 2).map (fun u => (u.t, u.cpu, u.synth)) = [(12, 10, false)] ∧
     (threadCs (Conv.run C12_runCfg C12_runHistory) 1 2).onAcc = 1 ∧
     (spec (timed C12_runCfg (trecs C12_runCfg 1 2 C12_runHistory))).running = 11 := by decide
+
+/-- non-vacuity of `C12_conv_views_cpu` / `C12_conv_views_offcpu`: the hypotheses hold for this history and thread
+(1, 2), and the output side is the sample of thread entry 1 / 2 with cpu delta 10 (1 ns still pending) -/
+example : C12_runCfg.reuse = false ∧ ConvSpec.CsSpec.hasCut C12_runHistory = false ∧
+    TOrdered C12_runCfg (none, H.init) (trecs C12_runCfg 1 2 C12_runHistory) ∧
+    (threadRun (Conv.St.init C12_runCfg) 1 2 0 (trecs C12_runCfg 1 2 C12_runHistory)).sat = false ∧
+    ((viewItems (Conv.run C12_runCfg C12_runHistory)).filter (fun x => x.1 == 1 && x.2.1 == 2)).map
+      (fun x => (x.2.2.cpu, x.2.2.weight, x.2.2.synth)) = [(10, 1, false)] := by decide
